@@ -74,7 +74,7 @@ package nodetable
 //@ ensures[absent] result.status == 0 ==> !inFast(nt, keyId(key)) && (forall j int {nt.slowHT[hashOf(keyId(key))][j]} :: !inSlowAt(nt, keyId(key), j))
 //@ nopanic
 
-//@ pure present(nt *NodeTable, k int) bool = inFast(nt, k) || (exists i int :: inSlowAt(nt, k, i))
+//@ pure present(nt *NodeTable, k int) bool = inFast(nt, k) || (exists i int {nt.slowHT[hashOf(k)][i]} :: inSlowAt(nt, k, i))
 //@ pure slowPtrAt(nt *NodeTable, k int, i int) ref = dec(nt.slowHT[hashOf(k)][i])
 
 // Representation invariant (the parts the functional contracts need).
@@ -137,6 +137,7 @@ package nodetable
 //@ ensures[ptr-slow] !old(inFast(nt, keyId(key))) && old(present(nt, keyId(key))) ==> old(exists i int :: inSlowAt(nt, keyId(key), i) && slowPtrAt(nt, keyId(key), i) == nptr)
 //@ ensures[ptr-absent] !old(present(nt, keyId(key))) ==> nptr == nil
 //@ ensures[removed] !present(nt, keyId(key))
+//@ ensures[slow-list-shrinks] success && old(has(nt.slowHT, hashOf(keyId(key)))) ==> (!has(nt.slowHT, hashOf(keyId(key))) && old(len(nt.slowHT[hashOf(keyId(key))])) == 1) || (has(nt.slowHT, hashOf(keyId(key))) && len(nt.slowHT[hashOf(keyId(key))]) == old(len(nt.slowHT[hashOf(keyId(key))])) - 1)
 //@ ensures[others] forall k2 int {hashOf(k2)} :: k2 != keyId(key) ==> (present(nt, k2) <==> old(present(nt, k2)))
 //@ ensures[others-fast-stay] forall k2 int {hashOf(k2)} :: k2 != keyId(key) && old(inFast(nt, k2)) ==> inFast(nt, k2) && dec(nt.fastHT[hashOf(k2)]) == old(dec(nt.fastHT[hashOf(k2)]))
 //@ ensures[count] nt.fastHTCount + nt.slowHTCount == old(nt.fastHTCount + nt.slowHTCount) - ite(success, 1, 0)
